@@ -13,20 +13,20 @@ def run(tier, seed):
     standard_front(chk, 'Props/C02.v', needs_items=('fset',), extra_vo=('Model/Kernel.v', 'Model/ZMatrix.v', 'Proofs/KernelP.v', 'Proofs/ZMatrixP.v', 'Corr/ZDriver.v', 'Gen/Tables.v'))
     rng = random.Random(seed)
     q = tier == 'quick'
-    zmat_cases(chk, rng, 48 if q else 600, (None, None, 'ideal'))
+    zmat_cases(chk, rng, 48 if q else 2400, (None, None, 'ideal'))
     first = chk.stages.pop('zmat', None)
-    tj = [dict(id=1000 + i, seed=rng.randrange(10 ** 9), spec=gen.gen_antenna(rng, family='taperjoin')) for i in range(16 if q else 120)]
+    tj = [dict(id=1000 + i, seed=rng.randrange(10 ** 9), spec=gen.gen_antenna(rng, family='taperjoin')) for i in range(16 if q else 480)]
     g2, e2 = stage_topo.run_zmat(chk, rng, 0, cases=tj)
     chk.stages['zmat-taperjoin'] = chk.stages.pop('zmat')
     if first: chk.stages['zmat'] = first
     cases = [dict(id=10 ** 6 + k, seed=rng.randrange(10 ** 9), spec=json.loads(json.dumps(sp)))
              for k, sp in enumerate(chk.notes.get('failing_specs', [])[:16])]
-    for i in range(24 if (q and not chk.broken) else (64 if q else 300)):
+    for i in range(24 if (q and not chk.broken) else (64 if q else 1200)):
         g = rng.choice((None, None, 'ideal'))
         spec = gen.gen_topology(rng, ground=g, perturb=False) if rng.random() < 0.3 else gen.gen_antenna(rng, ground=g, family=('taperjoin' if rng.random() < 0.25 else None))
         cases.append(dict(id=i, seed=rng.randrange(10 ** 9), spec=spec))
     shards = [cases[k::NCPU] for k in range(NCPU) if cases[k::NCPU]]
-    res = run_workers('zor.c02', [dict(cases=s, pairs=24 if q else 60) for s in shards])
+    res = run_workers('zor.c02', [dict(cases=s, pairs=24 if q else 240) for s in shards])
     n = sk = npairs = 0; worst = 0.0
     for ok, r in res:
         if not ok:
